@@ -1,34 +1,45 @@
 #!/bin/bash
-# rerecord.sh: re-records every regression replay under regress/ with the current version of the checks,
-# by running each check against the ORIGINAL tree (the pinned snapshot commit, where all repaired
-# defects are still present) and keeping, per finding class, the minimised replay it produces.
+# rerecord.sh: re-records every regression replay under regress/ with the current version of the checks.
+# For each repaired finding a scratch worktree of /repo HEAD is made in which ONLY that finding's fix
+# commit is reverted (git revert -n), the check is run against it, and the minimised replay of the
+# finding's class is kept. (Running against the pinned original tree would also work but there several
+# defects interact - e.g. the quadratic re-reading under NodeReifier makes runs crawl.)
 set -u
 cd "$(dirname "$0")/.."
-BASE=${BASE:-0c5d337}
-WT=$(mktemp -d /tmp/rerec-XXXXXX); rmdir "$WT"
-git -C /repo worktree add -q "$WT" "$BASE" || exit 2
 OUT=$(mktemp -d /tmp/rerec-out-XXXXXX)
-trap 'git -C /repo worktree remove --force "$WT"; rm -rf "$OUT"' EXIT
-# regress file -> class it must show
-while read -r id name class; do
+WTS=()
+cleanup() { for w in "${WTS[@]}"; do git -C /repo worktree remove --force "$w" 2>/dev/null; done; rm -rf "$OUT"; }
+trap cleanup EXIT
+fail=0
+while read -r id name class fix; do
   [ -z "$id" ] && continue
-  if [ ! -d "$OUT/$id" ]; then
-    mkdir -p "$OUT/$id"
-    VERIF_RUN_TIMEOUT_S=8 VERIF_OUT="$OUT/$id" VERIF_REPO="$WT" ./run.sh "$id" quick > "$OUT/$id/log" 2>&1
+  key="$id-$fix"
+  if [ ! -d "$OUT/$key" ]; then
+    mkdir -p "$OUT/$key"
+    WT=$(mktemp -d /tmp/rerec-XXXXXX); rmdir "$WT"
+    git -C /repo worktree add -q "$WT" HEAD || exit 2
+    WTS+=("$WT")
+    if [ -f "regress/defects/$fix.diff" ]; then
+      # a later fix touches the same lines: the defect is re-introduced by a hand-made patch instead
+      (cd "$WT" && git apply "$OLDPWD/regress/defects/$fix.diff") || { echo "regress/defects/$fix.diff does not apply"; exit 2; }
+    elif ! git -C "$WT" revert -n "$fix" >/dev/null 2>&1; then echo "cannot revert $fix cleanly (add regress/defects/$fix.diff)"; exit 2; fi
+    VERIF_RUN_TIMEOUT_S=30 VERIF_OUT="$OUT/$key" VERIF_REPO="$WT" ./run.sh "$id" quick > "$OUT/$key/log" 2>&1
   fi
-  f=$(grep -l "\"class\": \"$class" "$OUT/$id"/replays/*.json 2>/dev/null | head -1)
-  if [ -z "$f" ]; then echo "NOT REPRODUCED: $id $class (see $OUT/$id/log)"; cat "$OUT/$id/log" | tail -5; trap - EXIT; exit 1; fi
-  mkdir -p "regress/$id"; cp "$f" "regress/$id/$name.json"; echo "re-recorded regress/$id/$name.json ($class)"
+  f=$(grep -l "\"class\": \"$class" "$OUT/$key"/replays/*.json 2>/dev/null | head -1)
+  if [ -z "$f" ]; then echo "NOT REPRODUCED: $id $class with $fix reverted"; tail -5 "$OUT/$key/log"; fail=1; continue; fi
+  mkdir -p "regress/$id"; cp "$f" "regress/$id/$name.json"; echo "re-recorded regress/$id/$name.json ($class, $fix reverted)"
 done <<'TABLE'
-C04 neg-seek-single-block c04/unusable-after-failed-seek
-C04 neg-seek-multi-block c04/negative-seek-accepted
-C06 empty-first-child-not-preloaded c06/under-fetch
-C13 bitfield-longer-than-fanout-panic c13/panic@hamt.bitField
-C13 child-fanout-mismatch-name-strip-panic c13/panic@hamt.stringTransformer.transformNameNode
-C16 symlink-link-with-commit-error c16/link-returned-with-error@BuildUnixFSSymlink
-C16 empty-file-link-with-commit-error c16/link-returned-with-error@BuildUnixFSFile
-C17 race-cachedLength-shardCache c17/data-race@hamt.
-C05 node-reifier-double-wrap-overfetch c05/file/over-fetch
-C20 node-reifier-preload-noop c20/block-set-mismatch/dir
-C12 unmeasurable-child-skipped-as-empty c12/file/eof-instead-of-error
+C04 neg-seek-single-block c04/unusable-after-failed-seek 892204f
+C04 neg-seek-multi-block c04/negative-seek-accepted 892204f
+C06 empty-first-child-not-preloaded c06/under-fetch ea64dfb
+C06 raw-typed-file-not-preloaded c06/under-fetch be41ecb
+C13 bitfield-longer-than-fanout-panic c13/panic@hamt.bitField 11ed7b3
+C13 child-fanout-mismatch-name-strip-panic c13/panic@hamt.stringTransformer.transformNameNode c2cd645
+C16 symlink-link-with-commit-error c16/link-returned-with-error@BuildUnixFSSymlink 259ff00
+C16 empty-file-link-with-commit-error c16/link-returned-with-error@BuildUnixFSFile 259ff00
+C17 race-cachedLength-shardCache c17/data-race@hamt. 832597c
+C05 node-reifier-double-wrap-overfetch c05/file/over-fetch 66de0e2
+C20 node-reifier-preload-noop c20/block-set-mismatch/ c4568c0
+C12 unmeasurable-child-skipped-as-empty c12/file/eof-instead-of-error d112abd
 TABLE
+exit $fail
